@@ -259,6 +259,13 @@ def popAllLoop : Nat → PState → Nat → R1
       if startsWithAt inp lit position then popAllLoop k c1 (position + lit.length)
       else failT c1.restore
 
+/-- `failed_rule_name` of `NegativePredicate`: the rule's name if the operand is a rule
+    reference, else `None` (falls back to the current rule) -/
+def failedName : Expr → Option String
+  | .ident n _ => some n
+  | .rule n _ _ _ => some n
+  | _ => none
+
 /-! #### one node -/
 
 def step (k : Nat) (rec : Sem1) : Sem1
@@ -295,15 +302,10 @@ def step (k : Nat) (rec : Sem1) : Sem1
     match rec e { c0 with negDepth := c0.negDepth + 1 } with
     | .done matched c1 _ =>
       let c2 := c1.restore
-      let failedName : Option String :=
-        match e with
-        | .ident n _ => some n
-        | .rule n _ _ _ => some n
-        | _ => none
       if matched then
         -- `label = str(state.parser.rules[name].expression)`: the lookup cannot fail, the
         -- rule has just been parsed
-        match c2.fail failedName true with
+        match c2.fail (failedName e) true with
         | some c3 => .done false { c3 with negDepth := c3.negDepth - 1 } []
         | none => .exc .indexError
       else .done true { c2 with negDepth := c2.negDepth - 1 } []
